@@ -101,6 +101,13 @@ func (e *env) au(i identity.Interface) int {
 	return e.idx[i.Id()]
 }
 
+// slim: what the trace carries after every single call
+func (e *env) slim(s *bug.Snapshot) map[string]interface{} {
+	p := e.project(s)
+	return map[string]interface{}{"n": p.N, "title": p.Title, "status": p.Status, "labels": p.Labels, "ncomments": len(p.Comments),
+		"ntimeline": len(p.Timeline), "actors": p.Actors, "participants": p.Participants}
+}
+
 func (e *env) project(s *bug.Snapshot) Snap {
 	p := Snap{N: len(s.Operations), Title: num(s.Title, "title "), Status: s.Status.String(), Labels: ints(s.Labels),
 		Comments: []Comment{}, Actors: []int{}, Participants: []int{}, Timeline: []Item{}, Meta: []map[string]int{}, Author: e.au(s.Author)}
@@ -422,14 +429,14 @@ func TraceCmd(args []string) {
 			case "status":
 				c.S = []string{"open", "closed"}[rng.next()%2]
 			case "labelf", "label":
-				for j := 0; j < int(rng.next()%3); j++ {
-					c.Add = append(c.Add, 1+int(rng.next()%3))
+				for j := 0; j < int(rng.next()%4); j++ {
+					c.Add = append(c.Add, 1+int(rng.next()%5))
 				}
 				for j := 0; j < int(rng.next()%3); j++ {
-					c.Rem = append(c.Rem, 1+int(rng.next()%3))
+					c.Rem = append(c.Rem, 1+int(rng.next()%5))
 				}
 				if len(c.Add)+len(c.Rem) == 0 {
-					c.Add = []int{1 + int(rng.next()%3)}
+					c.Add = []int{1 + int(rng.next()%5)}
 				}
 			case "meta":
 				c.T = []string{"create", "last"}[rng.next()%2]
@@ -443,12 +450,15 @@ func TraceCmd(args []string) {
 		b, _, err := bug.Create(w.e.authors[1], unix, "title 1", "message 1", nil, map[string]string{"k0": "own"})
 		hx.Must(err)
 		ev := map[string]interface{}{"ev": "Seq", "calls": calls, "err": ""}
+		steps := []map[string]interface{}{w.e.slim(b.Compile())}
 		for k, c := range calls[1:] {
 			if err := w.e.apply(b, c, unix+int64(k)+1); err != nil {
 				ev["err"] = fmt.Sprintf("call %d (%s) failed: %v", k+2, c.K, err)
 				break
 			}
+			steps = append(steps, w.e.slim(b.Compile()))
 		}
+		ev["steps"] = steps
 		ev["mem"] = w.e.project(b.Compile())
 		if err := b.Commit(w.mock); err != nil {
 			ev["err"] = "commit: " + err.Error()
